@@ -176,3 +176,66 @@ func ExploreParallel(bound, workers int, body func(c *Ctx), visit func(c *Ctx)) 
 	wg.Wait()
 	return st
 }
+
+// ExploreShard is Explore restricted to shard `shard` of `n`. Nodes of the exploration tree at depth 0 and 1
+// (the root execution and the executions with exactly one chosen alternative) are run by every shard, because their
+// recorded choice points enumerate the subtrees below them, but each is counted and visited by one owner shard only;
+// every subtree rooted at depth 2 is explored by exactly one shard (round-robin in DFS order). The union over all
+// shards is exactly Explore's execution set, each execution visited once.
+func ExploreShard(bound, shard, n int, body func(c *Ctx), visit func(c *Ctx)) Stats {
+	var st Stats
+	const splitDepth = 2
+	counter := 0
+	var rec func(prefix []int, depth int, owned bool)
+	rec = func(prefix []int, depth int, owned bool) {
+		// owned: this whole subtree belongs to this shard. Otherwise (depth < splitDepth) the node is shared.
+		mine := owned
+		if !owned {
+			mine = counter%n == shard
+			counter++
+		}
+		c := &Ctx{prefix: prefix}
+		body(c)
+		if c.diverge != "" {
+			st.Diverged = append(st.Diverged, c.diverge)
+			return
+		}
+		if mine {
+			st.Executions++
+			if len(c.Choices) > st.MaxDepth {
+				st.MaxDepth = len(c.Choices)
+			}
+			if visit != nil {
+				visit(c)
+			}
+		}
+		used := 0
+		for i := 0; i < len(c.Choices); i++ {
+			if i >= len(prefix) {
+				for alt := 1; alt < c.sizes[i]; alt++ {
+					if used+c.costs[i] > bound {
+						break
+					}
+					np := append(append([]int{}, c.Choices[:i]...), alt)
+					switch {
+					case owned:
+						rec(np, depth+1, true)
+					case depth+1 < splitDepth:
+						rec(np, depth+1, false)
+					default:
+						own := counter%n == shard
+						counter++
+						if own {
+							rec(np, depth+1, true)
+						}
+					}
+				}
+			}
+			if c.Choices[i] != 0 {
+				used += c.costs[i]
+			}
+		}
+	}
+	rec(nil, 0, false)
+	return st
+}
